@@ -193,7 +193,7 @@ func TestC08(t *testing.T) {
 		maxLen = 40
 	}
 	rapid.Check(t, func(t *rapid.T) {
-		sc := genStackCase(t, []string{"std"})
+		sc := genStackCase(t, []string{"std", "std", "std", "chunked", "batched"})
 		st := stack.Get(sc.Cfg)
 		ses := newSession(st, sc.Binary)
 		defer ses.close()
